@@ -311,6 +311,25 @@ func (w *cacheWorld) dial(d *net.Dialer, ctx context.Context, network, addr stri
 			r.Violate("C19", "expiry", "served_expired_entry", "task %s: DialContext(%q) at %v used cached address %s although no unexpired entry existed", name, op.host, r.Now(), host)
 		}
 		idx := len(op.dialed)
+		if (idx >= len(op.expect.Addrs) || op.expect.Addrs[idx] != host) && op.failed == len(op.dialed) && op.failed >= len(op.expect.Addrs) {
+			// Every address of the entry the operation started from was dead. A
+			// client that looks again may find, without asking the resolver, an
+			// entry another task has put there in the meantime: that entry is
+			// then the one in force. (The resolver-asking variant of the retry
+			// is followed in LookupIPAddr.)
+			if e, ok := w.cache.VerifEntries()[op.host]; ok && e.Expires.After(time.Now()) {
+				var addrs []string
+				for _, a := range e.Addrs {
+					addrs = append(addrs, a.IP.String())
+				}
+				if len(addrs) > 0 && addrs[0] == host {
+					op.expect = ref.CacheEntry{Addrs: addrs, Expires: e.Expires, Stored: time.Now()}
+					op.dialed, op.failed, op.retried = nil, 0, true
+					idx = 0
+					r.Probe("dial_retry_found_another_tasks_entry")
+				}
+			}
+		}
 		if idx >= len(op.expect.Addrs) || op.expect.Addrs[idx] != host {
 			r.Violate("C19", "seq_equiv", "unexpected_address", "task %s: DialContext(%q) dialled %s as attempt %d; the entry in force is %s", name, op.host, host, idx+1, op.expect)
 		}
